@@ -61,6 +61,7 @@ type outcome struct {
 	steps      int
 
 	batchReqOverflows int
+	slow              time.Duration
 }
 
 // ---------------------------------------------------------------- model
@@ -670,6 +671,11 @@ func waitEither(d time.Duration, cond func() bool) bool {
 // client taken before the test was dropped". If that explanation fits the books exactly the defect is
 // F10: reported, or - when listed - carried along in the model (the leaked connection stays counted).
 func (r *run) absorbF10(hadIdle int) (*failure, bool) {
+	if hadIdle == 0 && r.mode != pool.ModeAccept {
+		// the connection opened for the refused request is reset by the refusing upstream: the books
+		// recover by themselves, nothing stays leaked
+		return nil, false
+	}
 	var leaked *mconn
 	if hadIdle > 0 {
 		leaked = r.idle[len(r.idle)-1]
@@ -1210,10 +1216,15 @@ func execute(part string, h History, d time.Duration) *outcome {
 		r.step = i + 1
 		var f *failure
 		var skipped bool
+		t0 := time.Now()
 		if op.K == "batch" {
 			f, skipped = r.batch(op.Sub)
 		} else {
 			f, skipped = r.do(op)
+		}
+		if el := time.Since(t0); el > 250*time.Millisecond {
+			r.logf("(step took %v)", el.Round(time.Millisecond))
+			out.slow += el
 		}
 		if !skipped {
 			out.steps++
